@@ -40,6 +40,7 @@ def generate(rng, i, tier):
         "p_inplay": 0.5,
         "n_updates": (4, rng.choice([8, 16, 30])),
         "p_trade": 0.6,
+        "p_lines": 0.12,
     }
     mix = {"p_act": rng.choice([0.0, 0.4, 0.7]), "p_fok": 0.05, "p_sp": 0.1, "max_size": 5.0, "where": ("through", "at", "behind", "behind")}
     two = rng.random() < 0.3
